@@ -101,6 +101,10 @@ def judge(S: dict, r: dict) -> str | None:
         if not done:
             return 'client-blocked-forever:%s' % r['client_label'][i].split(' ')[0]
     log = Counter(r['log'])
+    expected_runs: Counter = Counter()
+    for shape in shapes:
+        for tag in R.ONCE.get(shape, ()):
+            expected_runs[tag] += 1
     for i, shape in enumerate(shapes):
         res = r['clients'][i]
         if crashed:
@@ -135,11 +139,12 @@ def judge(S: dict, r: dict) -> str | None:
             return 'spurious-error:%s@%s' % ((errs[-1].split(':')[0] if errs else str(res[1])), fns[-1] if fns else '?')
         if res[1] != R.EXPECT[shape]:
             return 'wrong-result:%s' % shape
+        # every body exactly once; with several clients the same tag may be expected once per client
         for tag in R.ONCE[shape]:
-            if log[tag] != 1:
+            if log[tag] != expected_runs[tag]:
                 return 'body-ran-%d-times:%s' % (log[tag], tag[0])
         for tag, n in log.items():
-            if n > 1:
+            if n > max(1, expected_runs[tag]):
                 return 'body-ran-%d-times:%s' % (n, tag[0])
     if crashed:
         # the rest of the runtime shuts down rather than continuing in a damaged state
